@@ -116,7 +116,9 @@ def rv(v):
     if isinstance(v, Fraction): return z3.RealVal(str(v))
     v = float(v)
     if math.isnan(v) or math.isinf(v): raise Concretised("non-finite constant")
-    if v in CONST: return CONST[v]
+    if v in CONST:
+        k = CONST[v]
+        return k() if callable(k) else k
     return z3.RealVal(str(Fraction(v)))
 
 
@@ -284,7 +286,6 @@ class SReal:
     def squeeze(s): return s
     def astype(s, *a, **k): return s
     def sum(s, *a, **k): return s
-    def __len__(s): raise TypeError("len() of unsized object")
     @property
     def T(s): return s
     def __repr__(s): return f"SReal({z3.simplify(s.t)})"
@@ -429,12 +430,17 @@ def ground_axioms(terms):
         a = l.arg(0)
         ax.append(z3.Implies(a > 0, EXP(l) == a))
         ax.append(z3.Implies(a == 1, l == 0))
-        if z3.is_mul(a) and a.num_args() == 2:
-            p, q = a.arg(0), a.arg(1)
-            ax.append(z3.Implies(z3.And(p > 0, q > 0), l == LOG(p) + LOG(q)))
+        if z3.is_mul(a) and a.num_args() >= 2:
+            fs = a.children()
+            ax.append(z3.Implies(z3.And(*[f > 0 for f in fs]), l == z3.Sum([LOG(f) for f in fs])))
         if z3.is_div(a):
             p, q = a.arg(0), a.arg(1)
             ax.append(z3.Implies(z3.And(p > 0, q > 0), l == LOG(p) - LOG(q)))
+    if 2 <= len(logs) <= 7:
+        for x, y in itertools.combinations(logs, 2):
+            a, b = x.arg(0), y.arg(0)
+            ax.append(z3.Implies(z3.And(a > 0, b > 0), LOG(a * b) == x + y))
+            ax.append(z3.Implies(z3.And(a > 0, b > 0), LOG(a / b) == x - y))
     for e in exps:
         a = e.arg(0)
         ax.append(e > 0)
@@ -470,7 +476,7 @@ class Verdict:
 
 
 CVC5_BIN = '/usr/bin/cvc5'
-PROVE_TIMEOUT_MS = 30000
+PROVE_TIMEOUT_MS = 12000
 
 
 def _cvc5(smt2, timeout_s=20):
@@ -493,12 +499,22 @@ def prove(hyps, goal, rlimit=None, want_model=True, use_cvc5=True, recheck=False
     goal = goal if isinstance(goal, z3.ExprRef) else z3.BoolVal(bool(goal))
     terms = list(hyps) + [goal]
     ax = ground_axioms(terms)
-    if ax: ax = ax + ground_axioms(ax)
-    s = z3.Solver()
-    s.set('rlimit', rlimit or 8_000_000); s.set('timeout', PROVE_TIMEOUT_MS)
-    s.add(*GLOBAL_FACTS); s.add(*hyps); s.add(*ax); s.add(z3.Not(goal))
-    r = s.check()
+    if ax:
+        ax2 = ground_axioms(ax); ax = ax + ax2
+        if ax2: ax = ax + ground_axioms(ax2)
     exact = is_exact(terms)
+    r = z3.unknown; s = None
+    for budget in (3000, None):
+        if budget is None:
+            # between the two z3 attempts: rational-function normaliser for equalities (denominators discharged by z3)
+            v = _try_field(hyps, goal, t0, exact)
+            if v is not None: return v
+            budget = PROVE_TIMEOUT_MS
+        s = z3.Solver()
+        s.set('rlimit', rlimit or 8_000_000); s.set('timeout', budget)
+        s.add(*GLOBAL_FACTS); s.add(*hyps); s.add(*ax); s.add(z3.Not(goal))
+        r = s.check()
+        if r != z3.unknown: break
     if r == z3.unsat:
         v = Verdict('proved', 'z3', time.time() - t0, exact=exact)
         if recheck:
@@ -508,7 +524,15 @@ def prove(hyps, goal, rlimit=None, want_model=True, use_cvc5=True, recheck=False
     if r == z3.sat:
         m = s.model() if want_model else None
         return Verdict('refuted', 'z3', time.time() - t0, model=m, exact=exact, smt2=None)
-    # unknown: second back end
+    # third attempt: purified problem (uninterpreted applications -> constants; sound for proving only)
+    try:
+        pur = purify(list(GLOBAL_FACTS) + list(hyps) + list(ax) + [z3.Not(goal)])
+        s3 = z3.Solver(); s3.set('timeout', PROVE_TIMEOUT_MS); s3.add(*pur)
+        if s3.check() == z3.unsat:
+            return Verdict('proved', 'z3(purified)', time.time() - t0, exact=exact)
+    except Exception:
+        pass
+    # second SMT back end
     if use_cvc5:
         rr = _cvc5(s.to_smt2().replace('(check-sat)', ''))
         if rr == 'unsat':
@@ -516,6 +540,43 @@ def prove(hyps, goal, rlimit=None, want_model=True, use_cvc5=True, recheck=False
         if rr == 'sat':
             return Verdict('refuted', 'cvc5', time.time() - t0, model=None, exact=exact)
     return Verdict('undecided', 'z3', time.time() - t0, exact=exact, reason='solver unknown: ' + s.reason_unknown())
+
+
+def purify(terms):
+    """replace every application of an uninterpreted function by a constant (same function, same purified
+    arguments -> same constant).  The result is an abstraction: unsat of the result implies unsat of the input."""
+    memo = {}; table = {}
+    def tr(t):
+        k = t.get_id()
+        if k in memo: return memo[k]
+        if z3.is_app(t) and t.num_args() > 0:
+            args = [tr(c) for c in t.children()]
+            if t.decl().kind() == z3.Z3_OP_UNINTERPRETED:
+                key = (t.decl().name(), tuple(a.get_id() for a in args))
+                if key not in table:
+                    table[key] = (z3.Const(f"pur!{len(table)}", t.sort()), args)
+                r = table[key][0]
+            else:
+                r = t.decl()(*args)
+        else:
+            r = t
+        memo[k] = r
+        return r
+    return [tr(t) for t in terms]
+
+
+def _try_field(hyps, goal, t0, exact):
+    try:
+        from . import field
+        ok, info = field.prove_eq(goal)
+    except Exception as e:
+        ok, info = False, str(e)
+    if not ok: return None
+    for den in info:
+        s2 = z3.Solver(); s2.set('timeout', 10000)
+        s2.add(*GLOBAL_FACTS); s2.add(*hyps); s2.add(den == 0)
+        if s2.check() != z3.unsat: return None
+    return Verdict('proved', 'field+z3', time.time() - t0, exact=exact)
 
 
 def model_value(m, term):
@@ -536,4 +597,6 @@ def install_constants():
     _reg(np.pi, PI); _reg(2 * np.pi, 2 * PI)
     _reg(np.log(2 * np.pi), LOG(2 * PI)); _reg(np.log(2), LOG(z3.RealVal(2)))
     _reg(np.finfo(float).eps, EPS)
+    _reg(np.sqrt(2.0), lambda: def_sqrt(z3.RealVal(2)))
+    _reg(np.sqrt(2 * np.pi), lambda: def_sqrt(2 * PI))
 install_constants()
